@@ -1,4 +1,5 @@
 import GoCrypt.Proofs.Argon2Sched
+import GoCrypt.Gen.Facts
 import GoCrypt.Props.C09Link
 
 /-!
@@ -211,6 +212,21 @@ example {V : Type} (G : V → V → V → V) (rnd : Nat → Nat → V → Nat) (
     (argon2Tasks 16 4 2 G rnd n slice lane).length = 4 - startIndex n slice := by
   simp [argon2Tasks]
 
+/-- The goroutine structure of `processBlocks`, regenerated from the current source: the only `go`
+statement of the package starts `processSegment` once per lane (`lane = 0 … threads-1`), inside the
+slice loop inside the pass loop; `wg.Add(1)` immediately precedes it; `wg.Wait()` immediately follows
+the lane loop; the WaitGroup is declared afresh in the slice loop's body; the worker's last statement
+is `wg.Done()` and it has no early exit. This is the syntactic shape the phase model assumes (one
+task per lane per phase, a barrier after every phase, every worker joined before `Key` goes on). -/
+theorem workers_joined_facts :
+    (GoCrypt.Gen.Facts.goStmts.filter fun f => f.site == "argon2/argon2crypto") =
+      [{ site := "argon2/argon2crypto", fn := "processBlocks", starts := "processSegment",
+         loops := ["n := uint32(0); n < time; n++", "slice := uint32(0); slice < syncPoints; slice++",
+                   "lane := uint32(0); lane < threads; lane++"],
+         addBefore := true, waitAfter := true, wgFresh := true, doneLast := true, noEarlyExit := true, goCount := 1 }] := by
+  decide
+
+#print axioms workers_joined_facts
 #print axioms refset_in_memory
 #print axioms refset_cross_lane_completed
 #print axioms refset_same_lane_earlier
